@@ -164,6 +164,9 @@ def shard(col, module, mode, pop_bound, limit, pairs, part=0, nparts=1):
                     if not changed:
                         continue
                     col.count(f"variant_{variant}")
+                # the chromosomes are kept alive across the stage: a visitor that replaces one frees the old object
+                # and a new chromosome allocated at its address would be taken for it (rows are keyed by id)
+                alive = list(suite.test_case_chromosomes)  # noqa: F841
                 before = per_test(suite)
                 n_assert = sum(len(r[2]) for rows in before.values() for r in rows)
                 col.count("transitions")
